@@ -3,6 +3,7 @@ package ix
 import (
 	"encoding/json"
 	"fmt"
+	"os"
 	"strconv"
 	"strings"
 
@@ -289,6 +290,11 @@ var arithSplitRoot = func() parsley.Parser { return ArithParserSplit() }()
 // c05Placement: index into placements for the main evaluation of c05One (0: the file alone)
 var c05Placement = 0
 
+// at most c05DiskBudget inputs per worker process take the trip over the disk
+var c05DiskInputs = 0
+
+const c05DiskBudget = 1000
+
 func c05One(res *explore.Result, s string, verbose bool) arithKind {
 	kind, want, dzAt := arithClassify(s)
 	fs, _, r, _ := place(placements[c05Placement], "f", []byte(s))
@@ -329,6 +335,19 @@ func c05One(res *explore.Result, s string, verbose bool) arithKind {
 		} else if kind != arithUnspecified && ((e3 == nil) != (err == nil) || (e3 == nil && v3 != val) || (kind == arithDivZero && e3 != nil && err != nil && e3.Error() != err.Error())) {
 			res.Violate("grammar-formulations-disagree", fmt.Sprintf("Evaluate(%s): root SeqOf(expr, Trim(End())) gives %v, %v; root Sentence(RightTrim(expr)) gives %v, %v", q(s), v3, e3, val, err), cs)
 		}
+	}
+	if kind == arithValue && err == nil && strings.Contains(s, "\n") && c05Placement == 0 && c05DiskInputs < c05DiskBudget {
+		// the same expression saved with Windows line endings and loaded with text.ReadFile: same value
+		c05DiskInputs++
+		_, f4, r4, _ := place(placementFromDisk, "f", []byte(strings.ReplaceAll(s, "\n", "\r\n")))
+		var v4 interface{}
+		var e4 error
+		if pm := guard(func() { v4, e4 = parsley.Evaluate(parsley.NewContext(parsley.NewFileSet(f4), r4), arithRoot) }); pm != "" {
+			res.Violate("panic", fmt.Sprintf("Evaluate(%s) with CRLF line endings from disk panicked: %s", q(s), pm), cs)
+		} else if e4 != nil || v4 != val {
+			res.Violate("crlf-file-from-disk-differs", fmt.Sprintf("Evaluate(%s) = %v; the same text with CRLF line endings loaded with text.ReadFile gives %v, %v", q(s), val, v4, e4), cs)
+		}
+		res.Add("crlf_inputs_from_disk", 1)
 	}
 	if verbose {
 		res.Notes = append(res.Notes, fmt.Sprintf("input %s: reference kind=%d value=%d div0@%d; library value=%v err=%v", q(s), kind, want, dzAt, val, err))
@@ -431,6 +450,12 @@ func c05Families() []string {
 
 func c05Run(env *explore.Env) *explore.Result {
 	res := explore.NewResult()
+	defer func() {
+		if diskScratch != "" {
+			os.Remove(diskScratch)
+			diskScratch = ""
+		}
+	}()
 	eachString(c05Symbols, c05MaxLen(env.Tier), func(idx int64, s string, _ []int) {
 		if !env.Mine(idx) {
 			return
